@@ -121,6 +121,11 @@ fn finish_check(prop: &str, tier: &str, batch_seed: u64, t0: Instant, main: Batc
 
     let mut viol_list = Vec::new();
     for (id, doc, count) in &all {
+        if id.starts_with("harness/") {
+            println!("HARNESS-ERROR: {} (x{}): {}", id, count, doc.str_of("detail"));
+            harness_error = true;
+            continue;
+        }
         let clause = doc.str_of("clause");
         let class = doc.str_of("class");
         let k = known.iter().find(|k| k.property == prop && k.status == "open" && k.clause == clause && class.starts_with(&k.class_prefix));
